@@ -1412,6 +1412,16 @@ impl Function {
         while instruction_ptr < self.instructions.len() {
             let instruction = &self.instructions[instruction_ptr];
 
+            #[cfg(mscript_verif)]
+            crate::verif_trace::record(
+                &self.name,
+                instruction_ptr,
+                instruction.id,
+                current_frame.borrow().size(),
+                special_scopes.len(),
+                context.stack_size(),
+            );
+
             // queries the function pointer associated with the instruction,
             // and gives it ownership of the instruction.
             query!(&mut context, instruction)
@@ -1520,6 +1530,16 @@ impl Function {
 
             instruction_ptr += 1;
         }
+
+        #[cfg(mscript_verif)]
+        crate::verif_trace::record(
+            &self.name,
+            instruction_ptr,
+            u8::MAX,
+            current_frame.borrow().size(),
+            special_scopes.len(),
+            context.stack_size(),
+        );
 
         // Handle when a function does not explicitly return.
         log::warn!("Warning: function concludes without `ret` instruction");
